@@ -574,7 +574,9 @@ class VectorizedOptimizer(Generic[_S]):
             axis=0,
         ),
     )
-    top_indices = jnp.argpartition(-all_rewards, count - 1)[:count]
+    # A NaN reward is not a number and must never be ranked as the best.
+    ranking = jnp.where(jnp.isnan(all_rewards), -jnp.inf, all_rewards)
+    top_indices = jnp.argpartition(-ranking, count - 1)[:count]
     return VectorizedStrategyResults(
         rewards=all_rewards[top_indices],
         features=VectorizedOptimizerInput(
